@@ -545,6 +545,36 @@ def _ec_length_guard(ctx) -> None:
 
 
 # ----------------------------------------------------------------------------------------------- R01.7
+def r01_7b(ctx) -> None:
+    """R01.7 (second clause)  "every payload octet string" reaches verification: in the JWS extractors the only refusal that depends on the payload member is the
+    failure of its base64url decoding.  A test of the member's truthiness / emptiness / length that leads to a raise refuses a well-formed token
+    (the empty payload is a payload)."""
+    eng = ctx.eng
+    n = 0
+    for short in ("rfc7515.json:extract_general_json", "rfc7515.json:extract_flattened_json", "rfc7515.compact:extract_compact"):
+        fn = eng.prog.func(short)
+        cfg = cfg_of(fn)
+        vp = fn.pos_params[0]
+        for t in cfg.nodes:
+            if t.kind != "test":
+                continue
+            texts = resolve_all(eng, fn, t.ast)
+            about = [x for x in texts if ("['payload']" in x or ".get('payload'" in x or "payload_segment" in x or
+                                          any(isinstance(y, ast.Name) and y.id in ("payload", "payload_segment") for y in ast.walk(t.ast)))]
+            if not about:
+                continue
+            n += 1
+            for lab in ("true", "false"):
+                succ = succ_by_label(cfg, t, lab)
+                if succ and not can_reach_exit(cfg, succ):
+                    # membership of the key itself ('payload' in value) is about the shape of the serialization, not about the payload's value
+                    if isinstance(t.ast, ast.Compare) and len(t.ast.ops) == 1 and isinstance(t.ast.ops[0], (ast.In, ast.NotIn)) and const_value(t.ast.left) == "payload":
+                        continue
+                    ctx.fail("R01.7", fn, t.ast, f"{fn.short} refuses a token on a test of its payload member (`{norm(t.ast)[:60]}`): payloads that are valid octet strings "
+                             "(the empty one) never reach verification", construct=f"payload-dependent refusal in {fn.short}")
+    ctx.ok("R01.7", "extractors :: payload-dependent refusals", f"{n} tests about the payload member, none of them leads to a refusal")
+
+
 def r01_7(ctx) -> None:
     """the payload part of every signing input is the payload that is returned: either the returned object's own `.payload`
     field, or the received segment that the extractor pairs with it (payload = decode(S); segments['payload'] = S)"""
@@ -679,6 +709,7 @@ def run(ctx) -> None:
     ctx.guard(r01_6)
     ctx.guard(_ec_length_guard)
     ctx.guard(r01_7)
+    ctx.guard(r01_7b)
     # "valid under ... the algorithm named in its header": the verify primitives are called with exactly the RFC 7518 paddings (a PSS verifier that
     # accepts any salt length accepts signatures the named algorithm does not define)
     from .c07 import r07_1
